@@ -425,7 +425,7 @@ def r033(cg, rep):
     any_scalar = lambda label: cg.tcell(label, only=TRUTH_OPERANDS)
     rep.rule(WIDTH_RULE, 'a controlling expression / logical operand whose value is an address - pointer, and the kinds the parser leaves unconverted: array, function designator, VLA - is compared with zero '
                          'as a whole (all 64 bits) in every statement and short-circuit form (if, for/while, do, ?:, &&, ||), whatever `size` its type records (an array of 4 bytes or less, a function type of size 1): '
-                         'C11 6.3.2.1p3-4 the value is a pointer, 6.8.4.1p2 / 6.8.5p4 / 6.5.13-15 the branch is selected by whether it compares unequal to 0', floor=12)
+                         'C11 6.3.2.1p3-4 the value is a pointer, 6.8.4.1p2 / 6.8.5p4 / 6.5.13-15 the branch is selected by whether it compares unequal to 0', floor=24)
     r_logic(cg, rep, 'R03.3', nan_rule=NAN_RULE)
 
     def mk_cond(ctx):
@@ -2400,6 +2400,8 @@ def run(P, rep, tier):
     from ..lib_c03proto import r_prototype_scope
     from ..lib_c03vla import r_vla_once
     r_prototype_scope(P, rep)
+    from ..lib_c03proto import r_scope_recorded
+    r_scope_recorded(P, rep)
     r_vla_once(P, rep)
     # every statement form leaves the machine stack and the x87 register stack as it found them: a loop whose increment or condition
     # leaks a register-stack slot per iteration stops early (its condition turns NaN after eight iterations). C20's gen_stmt rule, re-used.
